@@ -28,6 +28,9 @@ type C07Case struct {
 	Extra  int       `json:"extra"`           // other calls pending at the same time (answered normally)
 	Pad    int       `json:"pad,omitempty"`   // bytes of padding in the affected call's arguments (the valid answer echoes them)
 	Split  bool      `json:"split,omitempty"` // event streams: each frame's terminating blank line arrives in a later read than the frame
+	// GetEnds (streamable-get): after the script the server ends the listening stream cleanly, and every stream the client
+	// opens afterwards ends at once as well (a server or proxy that does not keep such streams open)
+	GetEnds bool `json:"getends,omitempty"`
 }
 
 var c07Junk = []string{"comment", "blank", "nonjson", "notification", "unknown-request", "unknown-id", "id-bool", "id-object", "id-string", "no-result", "both", "giant", "garbage", "bom", "cr-valid",
@@ -65,6 +68,9 @@ func genC07(t *rapid.T) C07Case {
 	c.Extra = rapid.IntRange(0, 3).Draw(t, "extra")
 	c.Pad = rapid.SampledFrom([]int{0, 0, 0, 3000, 200000}).Draw(t, "pad")
 	c.Split = rapid.IntRange(0, 2).Draw(t, "split") == 0
+	if c.Client == "streamable-get" && rapid.IntRange(0, 3).Draw(t, "getends") == 0 {
+		c.GetEnds = true
+	}
 	return c
 }
 
@@ -321,6 +327,10 @@ func runC07WithFake(c C07Case, preset *FakeServer) *Failure {
 			pfx = "RAWSPLIT:"
 		}
 		fake.PushToStreams(pfx + strings.ReplaceAll(strings.ReplaceAll(c07SSE(c.Script, false), "{{valid}}", `{"jsonrpc":"2.0","method":"notifications/verif-junk2"}`), "{{id}}", "1"))
+		if c.GetEnds {
+			fake.EndAllGets.Store(true)
+			fake.PushToStreams("END:")
+		}
 	}
 	// the affected call, with other calls pending
 	type res struct {
@@ -393,6 +403,26 @@ func runC07WithFake(c C07Case, preset *FakeServer) *Failure {
 		f.Timing = lerr != nil && isTimeoutText(lerr.Error())
 		f = classifyC07(c, f)
 		return f
+	}
+	if c.Client == "streamable-get" && c.GetEnds {
+		// whether the client re-opens a listening stream that ended is its business; re-opening it in a loop is spinning
+		g0, t0, c0 := fake.GetTotal.Load(), time.Now(), CPUTime()
+		time.Sleep(150 * time.Millisecond)
+		if n := fake.GetTotal.Load() - g0; n > 15 {
+			return Failf("C07/spin/"+c.Client, "%s: after the server ended the listening stream the idle client opened %d new streams in %v", where, n, time.Since(t0).Round(time.Millisecond))
+		}
+		if used := CPUTime() - c0; float64(used) > 0.5*float64(time.Since(t0)) {
+			return classifyC07(c, TimingFailf("C07/spin/"+c.Client, "%s: the idle client used %v CPU in %v", where, used, time.Since(t0)))
+		}
+		cdone := make(chan error, 1)
+		go func() { cdone <- cl.Close() }()
+		closed = true
+		select {
+		case <-cdone:
+		case <-time.After(8 * time.Second):
+			return TimingFailf("C07/close-hangs/"+c.Client, "%s: Close did not return within 8 s", where)
+		}
+		return nil
 	}
 	// later well-formed frames on the stream are still processed
 	if c.Client == "streamable-get" || c.Client == "legacy" {
